@@ -6,6 +6,7 @@ use std::path::PathBuf;
 use tokio::sync::mpsc;
 
 use super::*;
+use crate::array::ArrayImplValidExt;
 use crate::binder::copy::{ExtSource, FileFormat};
 
 /// The executor of saving data to file.
@@ -92,7 +93,12 @@ impl CopyToFileExecutor {
             }
             for i in 0..chunk.cardinality() {
                 // TODO(wrj): avoid dynamic memory allocation (String)
-                let row = chunk.arrays().iter().map(|a| escaped(a.get_to_string(i)));
+                // NULL is written as an empty field, which COPY FROM reads back as NULL (it was
+                // written as the four letters `NULL`, i.e. the string 'NULL' or a parse error)
+                let row = chunk.arrays().iter().map(|a| match a.get_valid_bitmap()[i] {
+                    true => escaped(a.get_to_string(i)),
+                    false => String::new(),
+                });
                 writer.write_record(row)?;
             }
             writer.flush()?;
